@@ -1,0 +1,80 @@
+//go:build verif
+
+package jtypes
+
+// Contracts for package jtypes (kind predicates over reflect.Value), checked by /verif/govc.
+// Comment-only file behind the build tag verif.
+//
+// Vocabulary (reflect model, see /verif/govc/reflectmodel.go): kind(v), valid(v), isnil(v), canif(v),
+// fval(v), sval(v), bval(v), rvlen(v), at(v,i), elemof(v), res(v) = v with all non-nil Interface/Ptr
+// wrappers removed. reflect.Kind numbers: Bool 1, Int..Int64 2..6, Uint..Uint64 7..11, Float32/64 13/14,
+// Array 17, Func 19, Interface 20, Map 21, Ptr 22, Slice 23, String 24, Struct 25.
+
+//@ props C02 C03 C09 C10 C13
+
+//@ pred wraps(v reflect.Value) = (kind(v) == 20 || kind(v) == 22) && !isnil(v)
+//@ pred numKind(k int) = (2 <= k && k <= 11) || k == 13 || k == 14
+//@ pred arrKind(k int) = k == 17 || k == 23
+
+// Resolve strips non-nil Interface/Ptr wrappers; it never panics and never produces a wrapper.
+//@ func Resolve
+//@   ensures result == res(v) && !wraps(result)
+//@   ensures !wraps(v) ==> result == v
+//@   ensures (valid(v) && canif(v) && valid(result)) ==> canif(result)
+//@   assigns nothing
+//@   loop 0 invariant res(v) == res(old(v)) && ((valid(old(v)) && canif(old(v)) && valid(v)) ==> canif(v))
+//@   loop 0 decreases depth(v)
+
+//@ func resolvedKind
+//@   ensures result == kind(res(v))
+//@   assigns nothing
+
+//@ func IsBool
+//@   ensures result == (kind(res(v)) == 1)
+//@   assigns nothing
+//@ func IsString
+//@   ensures result == (kind(res(v)) == 24)
+//@   assigns nothing
+//@ func isFloat
+//@   ensures result == (kind(res(v)) == 13 || kind(res(v)) == 14)
+//@   assigns nothing
+//@ func isInt
+//@   ensures result == (2 <= kind(res(v)) && kind(res(v)) <= 6)
+//@   assigns nothing
+//@ func isUint
+//@   ensures result == (7 <= kind(res(v)) && kind(res(v)) <= 11)
+//@   assigns nothing
+//@ func IsNumber
+//@   ensures result == numKind(kind(res(v)))
+//@   assigns nothing
+//@ func IsArray
+//@   ensures result == arrKind(kind(res(v)))
+//@   assigns nothing
+//@ func IsMap
+//@   ensures result == (kind(res(v)) == 21)
+//@   assigns nothing
+//@ func IsStruct
+//@   ensures result == (kind(res(v)) == 25)
+//@   assigns nothing
+
+// The value accessors: ok exactly for the matching kind; the value is that of the resolved Value.
+//@ func AsBool
+//@   ensures r1 == (kind(res(v)) == 1) && (r1 ==> r0 == bval(res(v)))
+//@   assigns nothing
+//@ func AsString
+//@   ensures r1 == (kind(res(v)) == 24) && (r1 ==> same(r0, sval(res(v))))
+//@   assigns nothing
+//@ func AsNumber
+//@   ensures r1 == numKind(kind(res(v)))
+//@   ensures (kind(res(v)) == 13 || kind(res(v)) == 14) ==> same(r0, fval(res(v)))
+//@   assigns nothing
+
+// Callability is decided by the reflect type system (trusted): an uninterpreted predicate of the resolved Value.
+//@ func IsCallable
+//@   ensures result == ufb_callable(res(v))
+//@   ensures result ==> valid(res(v))
+//@   trusted
+//@ func AsCallable
+//@   ensures r1 ==> (r0 != nil && ufb_callable(res(v)) && valid(res(v)))
+//@   ensures !r1 ==> r0 == nil
+//@   trusted
